@@ -912,13 +912,6 @@ func c06Innermost(v interface{}) interface{} {
 	}
 }
 
-// c06FieldDiv: DIVERGENCE (reported). A wrapper held in a struct field (the printer unwraps interface-typed
-// fields before looking at the value) or in a reflect.Value operand is handled by handleSpecialValues, which
-// reads the wrapped value through the wrapper's unexported field: the String/Error/Format methods of the wrapped
-// value (at any depth) are not called and a pointer prints as an address, where fmt goes through the wrapper's
-// Format method: Sprint(Unsafe(c06Box{Safe(c06Stringer{"x"}), "b"})) is "{{x} b}" where fmt prints "{str:x b}".
-const c06FieldDiv = "a wrapper in a struct field or reflect.Value: methods of the wrapped value are not called, pointers print as addresses"
-
 // c06Containers: x as a part of a larger value.
 func c06Containers(e c06Val) []c06Val {
 	isWrapper := strings.HasPrefix(e.name, "Safe(") || strings.HasPrefix(e.name, "Unsafe(")
@@ -931,11 +924,6 @@ func c06Containers(e c06Val) []c06Val {
 		c06With("[]interface{}{[]interface{}{"+e.name+"}, c06Box{"+e.name+", \"i\"}}", []interface{}{[]interface{}{e.v}, c06Box{e.v, "i"}}, e),
 		c06With("c06Typed{I: "+e.name+"}", c06Typed{S: "ts" + SafeString(vS), R: RedactableString("tr" + vS + "x" + vE), N: 8, W: Safe("tw"), E: errors.New("te"), I: e.v}, e, c06Val{red: true, rs: true, hasS: true, err: true}),
 	}
-	if isWrapper && !c06PlainData(reflect.ValueOf(c06Innermost(e.v))) {
-		for _, j := range []int{2, 3, 5, 6} {
-			out[j].div = c06FieldDiv
-		}
-	}
 	hid := c06With("c06Hid{"+e.name+", 1}", c06Hid{e.v, 1}, e)
 	if isWrapper {
 		// fmt cannot call the wrapper's Format method through an unexported field and prints the wrapper
@@ -947,9 +935,6 @@ func c06Containers(e c06Val) []c06Val {
 		out = append(out, c06With("map[interface{}]int{"+e.name+": 1}", map[interface{}]int{e.v: 1}, e))
 	}
 	rv := c06With("reflect.ValueOf("+e.name+")", reflect.ValueOf(e.v), e)
-	if isWrapper && !c06PlainData(reflect.ValueOf(c06Innermost(e.v))) {
-		rv.div = c06FieldDiv
-	}
 	out = append(out, rv)
 	return out
 }
@@ -1358,9 +1343,6 @@ func (h *c06Harness) one(kind byte, x c06Val, ctx *c06Ctx) {
 	case x.div != "":
 		h.skipped["characters, KNOWN DIVERGENCE: "+x.div]++
 		return
-	case ctx.field && !c06PlainData(reflect.ValueOf(c06Innermost(x.v))):
-		h.skipped["characters, KNOWN DIVERGENCE: "+c06FieldDiv]++
-		return
 	case x.rs && !ctx.plain || x.rsf:
 		h.skipped["characters of a RedactableString under a directive other than plain %v (by design it ignores the directive)"]++
 		return
@@ -1376,17 +1358,10 @@ func (h *c06Harness) one(kind byte, x c06Val, ctx *c06Ctx) {
 	case kind == 'S' && x.nofmt:
 		h.skipped["characters under Safe() of a SafeFormatter that has no method fmt knows"]++
 		return
-	case kind == 'S' && (!ctx.plain && (x.hasS || ctx.inner) || x.sf):
-		// DIVERGENCE (reported): outside an Unsafe(), a Safe() wrapper that is reached through a container or
-		// below another Safe() is rendered through its SafeMessage() method = Sprintf("%v") of the wrapped value,
-		// and the directive is then applied to that string: Sprintf("%d", Safe([]interface{}{Safe(5)})) is
-		// "[%!d(redact.safeWrapper=5)]" where fmt prints "[5]"; %x prints "[35]", %q "[\"5\"]".
-		h.skipped["characters, KNOWN DIVERGENCE: a Safe() wrapper reached below another Safe() or inside a container is rendered via SafeMessage(): only plain %v has fmt's characters"]++
-		return
-	case kind == 'S' && !ctx.plain && !ctx.inner && (x.meth || h.hook && x.err):
+	case kind == 'S' && !ctx.plain && (x.meth || h.hook && x.err):
 		h.skipped["characters under Safe() for directives other than plain %v, x rendered by its own SafeFormat/SafeMessage/error-hook method instead of the method fmt would call"]++
 		return
-	case kind == 'S' && x.pan && !ctx.inner:
+	case kind == 'S' && x.pan:
 		h.skipped["characters under Safe(), the name of the panicking method (SafeFormat vs Format/String/Error) is part of the output"]++
 		return
 	}
